@@ -2170,6 +2170,10 @@ def cqm_to_bqm(cqm: ConstrainedQuadraticModel, lagrange_multiplier: typing.Optio
     for v in binary:
         bqm.add_variable(v)
 
+    if any(vartype is Vartype.SPIN for vartype in binary.values()):
+        # the bqm is BINARY. `binary` keeps the original vartypes for the inverter
+        cqm = cqm.spin_to_binary(inplace=False)
+
     # objective, we know it's always a QM
     bqm += _qm_to_bqm(cqm.objective, integers)
 
